@@ -8,6 +8,11 @@ Engine E2 (small-scope enumeration) + E4-style baseline fault menu.
     apply_delta(base, compute_delta(base, cur)) with cur; inputs unmutated; delta JSON-serialisable and
     deterministic.
 (b) file level: write_snapshot_auto(delta_mode) + every reader x every baseline condition.
+(c) damage level: one of the files a reader depends on (baseline, delta, the full used as fallback) is damaged at EVERY
+    byte position by every kind of a small menu of single-position damages (high bit set, byte zeroed, cut here, byte
+    dropped); the harness itself decides, with an independent strict parser, whether the damaged bytes still are a
+    snapshot file (header line + body, or one JSON text, strict UTF-8).  Where they are not, every reader has to return
+    the full payload exactly or report absence.
 """
 from __future__ import annotations
 
@@ -307,12 +312,229 @@ def _file_worker(chunk, st: Stats, scratch_root):
     shutil.rmtree(scratch, ignore_errors=True)
 
 
+# ---------------------------------------------------------------- damage level
+# One position of one file is damaged.  The menu holds the damages storage really produces: a flipped high bit (the
+# bytes stop being UTF-8), a zeroed byte (a raw control character), a torn write (cut) and a lost byte (drop).
+# "none" is the control: the same directory layout, nothing damaged (one case per layout)
+DAMAGE_KINDS = ["none", "bit7", "nul", "cut", "drop"]
+# which file is hit.  "baseline:before-delta-write" = the baseline is damaged first, THEN the delta-mode writer runs
+# (it reads the baseline too); "fallback-full" = baseline gone, a full snapshot of the target etag lies next to the delta
+DAMAGE_TARGETS = ["baseline", "baseline:before-delta-write", "delta", "fallback-full"]
+# signature class of a damage kind = the layer of the file grammar it breaks (the kind and the byte are in `what` and in the case)
+DAMAGE_CLASS = {"none": "intact", "bit7": "not-utf8", "nul": "not-json", "cut": "not-json", "drop": "not-json"}
+
+
+def _damage(raw: bytes, kind: str, p: int) -> bytes:
+    if kind == "none":
+        return raw
+    if kind == "bit7":
+        return raw[:p] + bytes([raw[p] | 0x80]) + raw[p + 1:]
+    if kind == "nul":
+        return raw[:p] + b"\x00" + raw[p + 1:]
+    if kind == "cut":
+        return raw[:p]
+    if kind == "drop":
+        return raw[:p] + raw[p + 1:]
+    raise ValueError(kind)
+
+
+def _json_text(s: str) -> bool:
+    try:
+        json.loads(s)
+        return True
+    except ValueError:
+        return False
+
+
+def in_file_grammar(data: bytes) -> bool:
+    """Independent of the engine: are these bytes still a snapshot file in one of the two documented layouts
+    (canonical header line + LF + body, or a single legacy JSON text), encoded as strict UTF-8 (RFC 8259)?
+    Damage that stays inside the grammar cannot be told from a snapshot of another state without checksums and is
+    not judged."""
+    try:
+        text = data.decode("utf-8")
+    except UnicodeDecodeError:
+        return False
+    if _json_text(text):
+        return True
+    head, sep, rest = text.partition("\n")
+    return bool(sep) and _json_text(head) and _json_text(rest)
+
+
+def _ref_state(scratch, etag, payload):
+    dref = os.path.join(scratch, "c07dref")
+    shutil.rmtree(dref, ignore_errors=True)
+    os.makedirs(dref)
+    try:
+        snap.write_snapshot_auto(dref, etag_from=None, etag_to=etag, payload=copy.deepcopy(payload), delta_mode=False)
+        return _load_state_from(dref)[1]
+    finally:
+        shutil.rmtree(dref, ignore_errors=True)
+
+
+def _put(path, data, mtime):
+    with open(path, "wb") as f:
+        f.write(data)
+    os.utime(path, (mtime, mtime))
+
+
+def damage_unit(scratch, base, cur, target, kinds, positions, readers, emit):
+    """Build the directory once, then walk kinds x positions x readers.
+    emit(kind, pos, reader, outcome_class, violation_or_None, damaged_bytes); positions=None = every byte of the file.
+    Returns the number of positions of the target file (or a list of set-up violations)."""
+    d = os.path.join(scratch, "c07d")
+    shutil.rmtree(d, ignore_errors=True)
+    os.makedirs(d)
+    before_write = target == "baseline:before-delta-write"
+    try:
+        pfull = None
+        try:
+            pbase, _ = snap.write_snapshot_auto(d, etag_from=None, etag_to="E1", payload=copy.deepcopy(base), delta_mode=False)
+            os.utime(pbase, (1000, 1000))
+            pcur = None
+            if not before_write:
+                pcur, _ = snap.write_snapshot_auto(d, etag_from="E1", etag_to="E2", payload=copy.deepcopy(cur), delta_mode=True)
+                os.utime(pcur, (2000, 2000))
+            if target == "fallback-full":
+                os.unlink(pbase)
+                pfull, _ = snap.write_snapshot_auto(d, etag_from=None, etag_to="E2", payload=copy.deepcopy(cur), delta_mode=False)
+                if pfull != pcur:
+                    os.utime(pfull, (1500, 1500))
+        except Exception as e:  # nothing is damaged yet
+            return [("file:writer-raises:%s" % type(e).__name__, "write_snapshot_auto raised %r with intact files" % (e,))]
+        tf, tf_mtime = {"baseline": (pbase, 1000), "baseline:before-delta-write": (pbase, 1000),
+                        "delta": (pcur, 2000), "fallback-full": (pfull, 1500 if pfull != pcur else 2000)}[target]
+        raw = open(tf, "rb").read()
+        keep = set(os.listdir(d))
+        ref_cur = _ref_state(scratch, "E2", cur)
+        ref_base = _ref_state(scratch, "E1", base)
+        for kind in kinds:
+            for p in ([0] if kind == "none" else range(len(raw)) if positions is None else positions):
+                if not 0 <= p < len(raw):
+                    continue
+                bad = _damage(raw, kind, p)
+                if kind == "none":
+                    pass
+                elif bad == raw:
+                    emit(kind, p, None, "skip:no-change", None, bad)
+                    continue
+                elif in_file_grammar(bad):
+                    emit(kind, p, None, "skip:still-a-snapshot-file", None, bad)
+                    continue
+                _put(tf, bad, tf_mtime)
+                written = pcur
+                if before_write:
+                    for n in os.listdir(d):
+                        if n not in keep:
+                            os.unlink(os.path.join(d, n))
+                    try:
+                        written, _ = snap.write_snapshot_auto(d, etag_from="E1", etag_to="E2", payload=copy.deepcopy(cur), delta_mode=True)
+                        os.utime(written, (2000, 2000))
+                    except Exception:
+                        written = None  # the writer reported the unusable baseline
+                for reader in readers:
+                    emit(kind, p, reader, *_damage_read(d, reader, written, pbase, cur, ref_cur, ref_base, target, kind), bad)
+        return len(raw)
+    finally:
+        shutil.rmtree(d, ignore_errors=True)
+
+
+def _damage_read(d, reader, written, pbase, cur, ref_cur, ref_base, target, kind):
+    """-> (outcome class, (sig, what) | None).  Absence in any explicit form is fine; so is the exact payload."""
+    where = "%s:%s:%s" % (reader, target, DAMAGE_CLASS[kind])
+    if reader == "load_latest_snapshot":
+        try:
+            info, got = _load_state_from(d)
+        except Exception:
+            return "absent:raises", None
+        if not info.get("loaded"):
+            return "absent:not-loaded", None
+        if J(got) == J(ref_cur):
+            return "exact", None
+        picked = os.path.basename(info.get("path") or "")
+        if written is None or picked != os.path.basename(written):
+            # discovery did not take the newest file: an older snapshot that loads as exactly what was written there
+            # is a fall-back to a full snapshot, not a wrong reconstruction
+            if picked == os.path.basename(pbase) and J(got) == J(ref_base):
+                return "older-full", None
+        return "wrong", ("damage:%s:wrong-state" % where,
+                         "load_latest_snapshot reports loaded=True (picked %s) with state %s; full-load state of the payload is %s" % (
+                             picked, J(got), J(ref_cur)))
+    try:
+        if reader == "read_snapshot(root,etag)":
+            got = snap.read_snapshot(d, "E2")
+        else:
+            if written is None:
+                return "absent:nothing-written", None
+            got = snap.read_snapshot(path=written)
+    except Exception:
+        return "absent:raises", None
+    if J(got) == J(cur):
+        return "exact", None
+    if got == {}:
+        return "absent:empty", None
+    return "wrong", ("damage:%s:wrong-payload" % where, "reader returned %s, full payload is %s" % (J(got), J(cur)))
+
+
+def damage_universe(thorough: bool):
+    """snapshot-shaped payloads (string material in keys and values at several depths, non-ASCII ids) and the ordered
+    pairs walked: quick = a 3-cycle plus one identical pair, thorough = all ordered pairs of six payloads"""
+    fu = file_universe(thorough)
+    n = len(fu)
+    if thorough:
+        idx = [0, n // 5 + 1, 2 * n // 5 + 2, 3 * n // 5 + 3, 4 * n // 5 - 1, n - 1]
+        pay = [fu[i] for i in idx]
+        pairs = [(i, j) for i in range(len(pay)) for j in range(len(pay))]
+    else:
+        pay = [fu[0], fu[n // 2 - 3], fu[n - 1]]
+        pairs = [(0, 1), (1, 2), (2, 0), (1, 1)]
+    return pay, pairs
+
+
+def _damage_worker(chunk, st: Stats, scratch_root, pay):
+    scratch = os.path.join(scratch_root, "d%d" % os.getpid())
+    os.makedirs(scratch, exist_ok=True)
+    import logging
+    logging.disable(logging.CRITICAL)
+    import contextlib, io
+    for (i, j, target, kind) in chunk:
+        base, cur = pay[i], pay[j]
+
+        def emit(kind, p, reader, outcome, viol, bad, _t=target, _b=base, _c=cur):
+            if reader is None:
+                st.add("damage_" + outcome.replace(":", "_").replace("-", "_"))
+                return
+            st.add("transitions")
+            st.add("validated")
+            st.add("damage_cases")
+            st.add("nontrivial")
+            st.distinct("states", b"damaged-file:" + _t.encode() + b":" + bad)
+            st.distinct("outcomes", ("damage", _t, kind, reader, outcome))
+            if viol:
+                st.violation(viol[0], viol[1] + " [%s of byte %d of the %s file]" % (kind, p, _t),
+                             {"kind": "damage", "base": _b, "cur": _c, "target": _t, "damage": kind, "pos": p, "reader": reader})
+        with contextlib.redirect_stderr(io.StringIO()):
+            res = damage_unit(scratch, base, cur, target, [kind], None, READERS, emit)
+        if isinstance(res, list):
+            for sig, what in res:
+                st.violation(sig, what, {"kind": "file", "base": base, "cur": cur, "baseline": "present", "reader": READERS[0]})
+        else:
+            st.notes["damage_max_file_bytes"] = max(st.notes.get("damage_max_file_bytes", 0), res)
+    st.sample({"kind": "damage", "base": pay[chunk[0][0]], "cur": pay[chunk[0][1]], "target": chunk[0][2], "damage": chunk[0][3],
+               "pos": 7, "reader": READERS[0]})
+    shutil.rmtree(scratch, ignore_errors=True)
+
+
 def run(run: Run) -> None:
     objs = universe(run.thorough)
     run.notes["universe_size"] = len(objs)
     run.rule = ("(a) all ordered pairs of the %d-object universe (<=2 top-level keys from a 5-6 key alphabet incl. "
                 "dotted/empty/unicode, values incl. 0/1/True/1.0/None/lists/nested dicts); non-trivial = base != cur; "
-                "(b) every (base,cur) from the snapshot-shaped sub-universe x baseline condition x reader" % len(objs))
+                "(b) every (base,cur) from the snapshot-shaped sub-universe x baseline condition x reader; "
+                "(c) damage: (base,cur) pairs of snapshot-shaped payloads x damaged file {baseline after the delta was written, "
+                "baseline before the delta-mode writer runs, delta, full used as fallback} x damage kind {high bit set, byte "
+                "zeroed, cut, byte dropped} x EVERY byte position of that file x reader; judged where the damaged bytes are "
+                "no longer a snapshot file (harness-side strict UTF-8 + JSON parse of both layouts): exact payload or absence" % len(objs))
     for o in objs:
         run.distinct("states", o)
     run.pmap(_pair_worker, list(range(len(objs))), extra=(objs,))
@@ -325,8 +547,19 @@ def run(run: Run) -> None:
                     cases.append({"kind": "file", "base": b, "cur": c, "baseline": bl, "reader": rd})
     run.notes["file_universe_size"] = len(fu)
     run.pmap(_file_worker, cases, extra=(run.scratch,))
+    pay, pairs = damage_universe(run.thorough)
+    units = [(i, j, t, k) for (i, j) in pairs for t in DAMAGE_TARGETS for k in DAMAGE_KINDS]
+    run.notes["damage_pairs"] = len(pairs)
+    run.notes["damage_units"] = len(units)
+    from mc.runner import NCPU
+    run.pmap(_damage_worker, units, extra=(run.scratch, pay), chunks=len(units), procs=NCPU)
     run.assume("zstandard is not installed in this image: codec dimension = {none}")
-    run.assume("corrupt baseline = unparseable bytes (garbage / empty / truncated); a baseline silently replaced by other valid JSON is undetectable without checksums and outside the alphabet")
+    run.assume("corrupt file = bytes that are no longer a snapshot file: the fixed menu garbage / empty / truncated for the baseline, and "
+               "single-position damage (high bit set, byte zeroed, cut, byte dropped) at every position of baseline, delta or fallback "
+               "full, judged only where strict UTF-8 decoding or JSON parsing of both file layouts fails in the harness's own parser; "
+               "damage that leaves other valid JSON behind (a changed digit, a shortened string, a file cut exactly after its header "
+               "line) is undetectable without checksums and outside the alphabet")
+    run.assume("a reader that answers a damaged newest file by loading the older intact full snapshot exactly is counted as a fall-back, not as a wrong state")
 
 
 def replay(case):
@@ -335,6 +568,11 @@ def replay(case):
         return check_pair(case["base"], case["cur"])
     d = tempfile.mkdtemp(prefix="c07r", dir="/dev/shm" if os.path.isdir("/dev/shm") else None)
     try:
+        if case["kind"] == "damage":
+            found = []
+            res = damage_unit(d, case["base"], case["cur"], case["target"], [case["damage"]], [case["pos"]], [case["reader"]],
+                              lambda kind, p, reader, outcome, viol, bad: found.append(viol) if viol else None)
+            return res if isinstance(res, list) else found
         return check_file(case, d)
     finally:
         shutil.rmtree(d, ignore_errors=True)
